@@ -209,6 +209,38 @@ impl Prop for C14 {
     fn id(&self) -> &'static str {
         "C14"
     }
+    fn witness(&self, ctx: &Ctx, f: &crate::findings::Finding) -> Result<bool, Fail> {
+        // witness {"kind":"parse_loc","files":{name: text},"top":name,"holds_byte":name,"listed_file":name}: the source is
+        // rejected with Error::Parse; still fails iff the location names `listed_file` instead of the file holding the byte
+        if f.witness["kind"].as_str() != Some("parse_loc") {
+            return Ok(false);
+        }
+        let w = &f.witness;
+        let dir = ctx.scratch.join(format!("witness-{}", f.id));
+        let _ = std::fs::remove_dir_all(&dir);
+        std::fs::create_dir_all(&dir).map_err(|e| Fail::new(format!("harness: {}", e), json!({"infrastructure": true})))?;
+        if let Some(files) = w["files"].as_object() {
+            for (name, text) in files {
+                std::fs::write(dir.join(name), text.as_str().unwrap_or("")).map_err(|e| Fail::new(format!("harness: {}", e), json!({"infrastructure": true})))?;
+            }
+        }
+        let top = dir.join(w["top"].as_str().unwrap_or("main.sv"));
+        let r = sv_parser::parse_sv(&top, &Defs::new(), &[dir.clone()], false, false);
+        let _ = std::fs::remove_dir_all(&dir);
+        let named = match r {
+            Err(Error::Parse(Some((p, _)))) => p.file_name().map(|x| x.to_string_lossy().to_string()).unwrap_or_default(),
+            Err(Error::Parse(None)) => "<none>".to_string(),
+            Err(e) => return Err(Fail::new(format!("witness of {}: {} instead of Error::Parse", f.id, sv::err_kind(&e)), json!({}))),
+            Ok(_) => return Err(Fail::new(format!("witness of {}: the source with the inserted byte is accepted", f.id), json!({}))),
+        };
+        if named == w["listed_file"].as_str().unwrap_or("") {
+            Ok(true)
+        } else if named == w["holds_byte"].as_str().unwrap_or("") {
+            Ok(false)
+        } else {
+            Err(Fail::new(format!("witness of {}: location names {}", f.id, named), json!({})))
+        }
+    }
     fn rule(&self) -> String {
         "cases: accepted programs (generated Annex A programs and corpus files that preprocessing leaves unchanged); sites: every token start outside compiler directives and the end \
          of the text for inserting a byte that cannot start a token (0x01, 0x7f, é, §), every closing bracket and block-closing keyword for deletion (a window of <= 60 consecutive sites \
